@@ -242,7 +242,7 @@ func (c *rsCluster) live() []*rsNode {
 	return r
 }
 
-const rsMaxNodes = 6
+const rsMaxNodes = 40
 
 // start creates an incarnation of node id over its database. peers is what the code would pass
 // as nodeIds (server.go getZeroNodeIds / partition.loadRaft).
